@@ -295,7 +295,7 @@ def _bool_locals(body):
     return {i for i, l in enumerate(body.locals) if l["ty"] == "bool"}
 
 
-def flag_search(body, starts, init=None, stop=(), cut_edges=(), call_results=None, avoid=(), max_states=200000, on_state=None):
+def flag_search(body, starts, init=None, stop=(), cut_edges=(), call_results=None, avoid=(), max_states=200000, on_state=None, stmt_results=None):
     """Explicit-state reachability over (block, valuation of bool locals with known value).
 
     starts: iterable of blocks to start at (entered at their first statement)
@@ -337,7 +337,7 @@ def flag_search(body, starts, init=None, stop=(), cut_edges=(), call_results=Non
         if on_state is not None and blk["term"]["k"] == "return":
             # valuation at a return is the one after the block's statements: computed below, reported there
             pass
-        for s in blk["stmts"]:
+        for si_, s in enumerate(blk["stmts"]):
             if s["k"] != "assign":
                 continue
             d = s["dst"]
@@ -348,6 +348,9 @@ def flag_search(body, starts, init=None, stop=(), cut_edges=(), call_results=Non
                 continue
             rv = s["rv"]
             nv = None
+            if stmt_results and (bb, si_) in stmt_results:
+                v[l] = stmt_results[(bb, si_)]
+                continue
             if rv["k"] == "use":
                 nv = _op_bool(rv["a"], v)
             elif rv["k"] == "un" and rv["op"] == "Not":
